@@ -114,9 +114,34 @@ fn host_project(host: &str, streams: &[(String, Vec<u8>)]) -> Result<VbaProject,
     }
 }
 
+/// module sources that begin like a byte-order mark (EF BB BF, FF FE, FE FF): in a code-page project they
+/// are ordinary characters -- the text is the content decoded with the project's code page, no sniffing
+fn bom_like_sources(rep: &mut Report) {
+    for (cp, enc) in [(1252u16, encoding_rs::WINDOWS_1252), (1251, encoding_rs::WINDOWS_1251)] {
+        for head in [&[0xEFu8, 0xBB, 0xBF][..], &[0xFF, 0xFE][..], &[0xFE, 0xFF][..]] {
+            let mut src = head.to_vec();
+            src.extend_from_slice(b"Sub A()\r\nEnd Sub\r\n");
+            let b = json!({"case": "bom-like module source", "cp": cp, "head": head});
+            rep.case(&b, true);
+            let desc = ProjectDesc { compat: false, codepage: cp, refs: vec![], modules: vec![ModuleDesc { name: b"Module1".to_vec(), name_unicode: "Module1".into(), stream: "Mod1".into(), offset: 0, class: false, readonly: false, private: false }] };
+            let streams = project_streams(&desc, &[compress_literal(&src)]);
+            let want = enc.decode_without_bom_handling(&src).0.to_string();
+            let got = catch(|| -> Result<(Vec<u8>, String), String> {
+                let v = host_project("bin", &streams)?;
+                Ok((v.get_module_raw("Module1").map_err(|e| e.to_string())?.to_vec(), v.get_module("Module1").map_err(|e| e.to_string())?))
+            });
+            match got {
+                Ok(Ok((raw, text))) if raw == src && text == want => {}
+                other => rep.fail("unexplained", &b, json!({"raw": src, "text": want}), json!(format!("{:?}", other))),
+            }
+        }
+    }
+}
+
 pub fn replay_vbadir(args: &Args) -> i32 {
     let mut rep = Report::new();
     let _ = xlsb::PTG_INT_1;
+    bom_like_sources(&mut rep);
     for b in read_ndjson(args.req("in")) {
         let d = &b["d"];
         rep.case(d, !d["modules"].as_array().unwrap().is_empty());
